@@ -1022,3 +1022,33 @@ def propagates(tags):
     if bad or "dropped" in tags:
         return False
     return bool(tags & {"try", "returned", "match"}) or any(t.startswith("method:unwrap") or t.startswith("method:expect") or t.startswith("arg:") or t == "stored" for t in tags)
+
+
+# ----------------------------------------------------------------------------- match arms (HIR) <-> MIR by source lines
+def find_match(fn, scrut_suffix, min_arms=1):
+    ms = [m for m in fn.raw["matches"] if m["kind"] == "match" and (m["scrut"] == scrut_suffix or m["scrut"].endswith("::" + scrut_suffix)) and len(m["arms"]) >= min_arms]
+    return ms
+
+
+def arm_for(m, variant_suffix):
+    """arms whose pattern alternatives include the variant (by path suffix)"""
+    out = []
+    for a in m["arms"]:
+        for alt in pat_alternatives(a["pat"]):
+            h = pat_head(alt)
+            if h == variant_suffix or h.endswith("::" + variant_suffix):
+                out.append(a)
+                break
+    return out
+
+
+def in_span_lines(span, line):
+    return span[0] <= line <= span[2]
+
+
+def calls_in_lines(fn, span):
+    return [c for c in fn.calls() if span_contains(span, c.span) or (span[0] < c.span[0] < span[2])]
+
+
+def stmts_in_lines(fn, span):
+    return [(i, j, dst, rv, line) for i, j, dst, rv, line in fn.stmts() if span[0] <= line <= span[2]]
